@@ -291,10 +291,10 @@ pub fn run(ctx: &mut Ctx) {
         );
     }
     ctx.layer("random");
-    ctx.run_prop(&SUB_PRES, matrix_case, t.pick(600_000, 6_000_000));
-    ctx.run_prop(&SUB_PRES, sparse_case, t.pick(10_000, 200_000));
+    ctx.run_prop(&SUB_PRES, matrix_case, t.pick(600_000, 20_000_000));
+    ctx.run_prop(&SUB_PRES, sparse_case, t.pick(10_000, 600_000));
     ctx.layer("dsymbol-presentations");
-    ctx.run_prop(&SUB_PRES, dsymbol_presentation, t.pick(6_000, 100_000));
+    ctx.run_prop(&SUB_PRES, dsymbol_presentation, t.pick(6_000, 300_000));
 }
 
 /// presentations as they occur in the crate: fundamental groups of random D-symbols (the crate's own
